@@ -31,7 +31,7 @@ PROPS['C05'] = dict(
          'One non-trivial unit = one (method, k) pair whose iterate was compared with its long-double reference (optimality, recurrence, monotonicity step or termination run); '
          'pairs skipped because the reference recurrences are themselves ill-conditioned are counted separately and are not non-trivial. distinct = distinct (sub-check, system descriptor).',
     exhaustive_note='restart lengths M in {1,2,4,30}, L in {1,2,4}, s in 1..8, both preconditioning sides are enumerated completely for every sampled system; systems are sampled',
-    min_nontrivial=dict(quick=20000, thorough=200000),
+    min_nontrivial=dict(quick=20000, thorough=500000),
     assumptions=COMMON_ASSUME + ['finite-termination clause: "well-conditioned" means the generator bounds recorded in observation termination_generator'],
     technique='amgcl solvers driven with a harness-defined dense preconditioner so that the Krylov space is known exactly; long-double references written from the definitions '
               '(least squares over an orthonormal Krylov basis, van der Vorst / Sleijpen-Fokkema recurrences, stationary recurrence); same workload under ASan/UBSan',
